@@ -148,7 +148,7 @@ def scan_assumptions(gen_path, info):
                 # name: next `fn NAME` / `[path]` on this or following lines
                 name = None
                 for k in range(ln - 1, min(ln + 6, len(lines))):
-                    m = re.search(r"\bfn\s+([A-Za-z_0-9]+)", lines[k]) or re.search(r"\[([^\]]+)\]\s*\(", lines[k])
+                    m = re.search(r"\b(?:fn|struct)\s+([A-Za-z_0-9]+)", lines[k]) or re.search(r"\[([^\]]+)\]\s*\(", lines[k])
                     if m:
                         name = m.group(1).strip()
                         break
